@@ -15,6 +15,8 @@ NATIVE = []
 FILE_DEPS = {
     'src/mnemonic.rs': ['src/mnemonic/wordlist.rs', 'src/rand.rs'],
     'src/transaction/legacy.rs': ['src/transaction/rlp.rs'],
+    'src/transaction/eip2930.rs': ['src/transaction/rlp.rs'],
+    'src/transaction/eip1559.rs': ['src/transaction/rlp.rs'],
 }
 
 
@@ -221,6 +223,13 @@ for _n, _d in (('signed_chain', 'signed, chain id present, recipient present'), 
     K(f'c06_legacy_{_n}', LEG, 'LegacyTransaction::rlp_encode', {'C06': Q, 'C11': Q},
       'legacy encoding is one RLP list of [nonce, gasPrice, gas, to | empty string, value, data] followed by (v = 35 + 2*chainId + yParity | 27 + yParity, r, s) when signed, (chainId, 0, 0) when unsigned with a chain id, nothing otherwise; every field value symbolic (element encoders as recording callee contracts, proved in C07)',
       complete=True, bound=f'shape: {_d}; 2 bytes of calldata; all numeric values, recipient, calldata bytes, parity symbolic', replay='none', timeout=900)
+for _k, _f, _ty, _fields in (('eip2930', E29, '0x01', 'chainId, nonce, gasPrice, gas, to | empty string, value, data, accessList'),
+                             ('eip1559', E15, '0x02', 'chainId, nonce, maxPriorityFeePerGas, maxFeePerGas, gas, to | empty string, value, data, accessList')):
+    for _n, _d in (('signed_to', 'signed, recipient present'), ('signed_create', 'signed, no recipient'),
+                   ('unsigned_to', 'unsigned, recipient present'), ('unsigned_create', 'unsigned, no recipient')):
+        K(f'c06_{_k}_{_n}', _f, f'{_k.capitalize()}Transaction::rlp_encode', {'C06': Q, 'C11': Q},
+          f'{_k} encoding is the type byte {_ty} followed by exactly one RLP list of [{_fields}] and, when signed, (yParity, r, s) - nothing else, in this order, every field value symbolic, chainId the first signed field (element encoders, AccessList::rlp_encode and rlp::iter as recording callee contracts, proved / paired in C07)',
+          complete=True, bound=f'shape: {_d}; 2 bytes of calldata; all numeric values, recipient, calldata bytes, parity symbolic; the access list is an opaque callee (identity recorded)', replay='none', timeout=1200)
 K('c11_chain_id_invariant', LEG, 'legacy::deserialize_chain_id', {'C11': Q, 'C06': Q, 'C17': Q},
   'a deserialized legacy chain id is kept unchanged, and is refused iff 35 + 2c + 1 does not fit 256 bits: the precondition under which Signature::v is exact (c11_v_exact_in_range) holds for every LegacyTransaction built from JSON',
   complete=True, replay='none')
@@ -310,14 +319,14 @@ PROPS = {
                 claim='Proved: a 32-byte secret is accepted iff it is in [1, n-1] and is stored unchanged; byte strings of lengths 0, 1, 16, 23, 24, 31, 33, 64 are rejected or taken as the same big-endian integer; the address is the last 20 bytes of one Keccak-256 call over exactly the 64 coordinate bytes. NOT decided (dependency theorems, assumed): the public key is secret*G in 65-byte SEC1 form (k256), Keccak-256 itself (ethdigest), the EIP-55 display casing (ethaddr).',
                 note='The claim is restricted to the three clauses above; the elliptic-curve and hash clauses of C04 are properties of k256 / ethdigest / ethaddr that no contract within reach can express (same reason as C05). encode_uncompressed (4 lines of dependency calls) is trusted to return 0x04 || X || Y.'),
     'C06': dict(level='proof',
-                technique='Kani/CBMC contracts on the real LegacyTransaction::rlp_encode with the element encoders as recording callee contracts (proved in the C07 Verus unit, which runs again here); native reference-encoder stand-in for the typed kinds and the JSON layer',
-                claim='Proved for legacy transactions in all four shapes (signed/unsigned x chain id present/absent), every numeric value, recipient, calldata byte and parity symbolic: the output is one RLP list of exactly [nonce, gasPrice, gas, to | empty, value, data] plus the tail (35 + 2c + p | 27 + p, r, s), (c, 0, 0) or nothing; rlp::{len,bytes,uint,list} are proved equal to the Yellow-Paper encoding for all inputs (Verus). EIP-2930 / EIP-1559 field order, the type byte, kind dispatch and the JSON-to-field mapping are covered only by the bounded native differential against a reference encoder with a strict decoder (1836 signed encodings).',
-                note='Eip2930/Eip1559 rlp_encode exhaust CBMC memory (slice concat + iterator chains) even with all encoders stubbed; Transaction::{signing_message, encode} dispatch cannot be compiled by Kani 0.68 (internal error on the niche-encoded Transaction enum discriminant). "Recovers to the signer" needs C05 (not applicable). Keccak-256 assumed.',
+                technique='Kani/CBMC contracts on the real LegacyTransaction / Eip2930Transaction / Eip1559Transaction::rlp_encode with the element encoders (and, for the typed kinds, AccessList::rlp_encode and rlp::iter) as recording callee contracts (proved in the C07 Verus unit, which runs again here); native reference-encoder stand-in for kind dispatch, access lists and the JSON layer',
+                claim='Proved for legacy transactions in all four shapes (signed/unsigned x chain id present/absent), every numeric value, recipient, calldata byte and parity symbolic: the output is one RLP list of exactly [nonce, gasPrice, gas, to | empty, value, data] plus the tail (35 + 2c + p | 27 + p, r, s), (c, 0, 0) or nothing; rlp::{len,bytes,uint,list} are proved equal to the Yellow-Paper encoding for all inputs (Verus). Proved for EIP-2930 and EIP-1559 in all four shapes each (signed/unsigned x recipient present/absent), every value symbolic: the output is the type byte 0x01 / 0x02 followed by exactly one list whose items are, in order, [chainId, nonce, gasPrice | maxPriorityFeePerGas, maxFeePerGas, gas, to | empty, value, data, accessList] plus (yParity, r, s) when signed. Kind dispatch (Transaction enum), the contents of non-empty access lists and the JSON-to-field mapping are covered only by the bounded native differential against a reference encoder with a strict decoder (1836 signed encodings).',
+                note='Eip2930/Eip1559 rlp_encode exhaust CBMC memory when rlp::iter runs for real (collect + list over 9-12 token vectors); with rlp::iter as a recording callee contract (its own contract, iter(xs) == list(xs), is the Verus obligation on list plus the c07_iter pairing) they discharge in 1.5-5 min per shape. Transaction::{signing_message, encode} dispatch cannot be compiled by Kani 0.68 (internal error on the niche-encoded Transaction enum discriminant). "Recovers to the signer" needs C05 (not applicable). Keccak-256 assumed.',
                 jobs=8),
     'C11': dict(level='proof',
                 technique='Kani/CBMC contracts: Signature::v over all representable chain ids on the real ethnum arithmetic, the deserialization invariant that establishes its precondition, and the legacy EIP-155 tails',
                 claim='Proved: v(Some(c)) == 35 + 2c + yParity exactly over the naturals for every c <= 2^255 - 19 (every c for which the value fits 256 bits), v(None) == 27 + yParity; every legacy chain id accepted from JSON satisfies that bound (larger ones are refused with an error), so no wrap-around is reachable; the unsigned legacy payload ends in (c, 0, 0) iff a chain id is present and the signed one carries that v. The refusal to sign an unprotected legacy transaction without the override flag is checked only by the bounded native CLI stand-in (Kani 0.68 cannot compile a match on the Transaction enum).',
-                note='Typed transactions carrying the chain id as first signed field: native reference differential only (see C06). "A signature for one chain id never validates under another" additionally needs collision resistance of Keccak and C05; assumed.'),
+                note='Typed transactions carry the chain id as first signed field: proved by the c06_eip2930_* / c06_eip1559_* contracts (see C06). "A signature for one chain id never validates under another" additionally needs collision resistance of Keccak and C05; assumed.'),
     'C13': dict(level='proof',
                 technique='Kani/CBMC contracts on the real ethnum permissive visitor as instantiated by this crate, over every u64 / i64 / f64 JSON number; native stand-in for strings and for the repository\'s negative-number guard',
                 claim='Proved for every JSON number: a non-negative integer or float is taken at exactly its mathematical value or refused (fractional, >= 2^53 floats), for unsigned fields and for signed typed-data values. Bounded (native): the repository helper that refuses negative numbers before delegating, decimal / hex string spellings (14 integers incl. the 2^53, 2^64, 2^255-19, 2^256 boundaries, 30 malformed spellings) on all 16 numeric fields, byte / address / storage-key rules, identical encodings for equal integers.',
